@@ -276,7 +276,8 @@ def make_schema():
     inner = T.MessageType('Inner', fields={'x': num, 'ok': T.BOOLEANS})
     fields = {'p': T.BOOLEANS, 'q': T.BOOLEANS, 'ok': T.BOOLEANS, 'x': num, 'y': num, 'k': T.INT32,
               'txt': T.STRINGS, 'xs': T.ArrayType('float64[]', subtype=num), 'bs': T.ArrayType('bool[3]', subtype=T.BOOLEANS, length=3),
-              'm': inner}
+              'm': inner, 'not_ready': T.BOOLEANS, 'is_on': T.BOOLEANS, 'linear_x': num, 'v2': T.UINT8, '_w': num, 'len': T.UINT32,
+              'inside': num, 'frame_id': T.STRINGS, 'ranges': T.ArrayType('float32[]', subtype=T.FLOAT32)}
     msg = T.MessageType('Msg', fields=fields)
     return msg
 
@@ -473,7 +474,8 @@ def do_op(name, h, h2, op, pool, schema, msg_types):
         return obj.replace_var_reference(_an_alias(obj, op), _an_expr(h2, op)), None
     if name in ('type_check_expr', 'type_check_pred'):
         sch = (schema, schema, make_constants_schema(), make_partial_schema())[op['sel'] & 3]
-        return obj.type_check_references(sch, {'A': schema if op['sel'] & 4 else sch}), None
+        other = schema if op['sel'] & 4 else sch
+        return obj.type_check_references(sch, {'A': other, 'Msg_1': other}), None
     if name == 'simplify':
         return rw.simplify(obj), None
     if name == 'split_and':
@@ -647,8 +649,8 @@ def execute(sc, stats=None, upto=None, trace=None):
         stats[k] = stats.get(k, 0) + n
 
     schema = make_schema()
-    msg_types = {t: schema for t in gen.TOPICS}
-    msg_types.update({'A': schema})
+    msg_types = {t: schema for t in gen.TOPICS + gen.ROS_TOPICS}
+    msg_types.update({'A': schema, 'Msg_1': schema})
     pool = []
     resolved = []
     _RESOLVED[0] = resolved
